@@ -224,19 +224,36 @@ func c16FormatOne(c *Ctx, pool *Pool, i int, tag string, seed uint64, in []byte)
 	}
 	// --- format -d ---
 	if len(in) > 0 && !bytes.Contains(in, []byte{0}) && len(in) < 120000 {
-		spell := r.Intn(3)
-		var argv []string
-		switch spell {
-		case 0:
-			argv = []string{"format", "-d", string(in)}
-		case 1:
-			argv = []string{"format", "--dsl", string(in)}
-		default:
-			argv = []string{"format", "--dsl=" + string(in)}
+		spell := r.Intn(7)
+		argvFor := func(x []byte) []string {
+			switch spell {
+			case 0:
+				return []string{"format", "-d", string(x)}
+			case 1:
+				return []string{"format", "--dsl", string(x)}
+			case 2:
+				return []string{"format", "--dsl=" + string(x)}
+			case 3:
+				return []string{"format", "-d=" + string(x)}
+			case 4:
+				return []string{"format", "-d" + string(x)} // shorthand with the value attached
+			case 5:
+				// a repeated flag: the last value counts
+				return []string{"format", "-d", "packet Earlier { }", "--dsl", string(x)}
+			default:
+				return []string{"format", "--dsl", string(x)}
+			}
 		}
+		if spell == 4 && len(in) > 0 && in[0] == '=' {
+			spell = 0
+		}
+		argv := argvFor(in)
 		w := &CLIWorld{Argv: argv, Disk0: []DiskEntry{{Path: "other.dsl", Kind: "file", Data: []byte("root packet Other { u8 x, }\n")}, {Path: "sub", Kind: "dir"}}, Sched: s0()}
 		if r.Chance(1, 3) {
 			w.Cwd = "sub"
+		}
+		if r.Chance(1, 3) {
+			w.StdoutKind = "file" // standard output redirected to a file instead of a pipe
 		}
 		o, err := c.sc.RunCLI(w)
 		if err != nil {
@@ -247,7 +264,7 @@ func c16FormatOne(c *Ctx, pool *Pool, i int, tag string, seed uint64, in []byte)
 		c.event(fmt.Sprintf("c16fmt|%d%s|d", i, tag), in, argv[:2], o.Exit, o.Stdout, treeSig(o, ""), opSig(o), ref.FormatOK, ref.FormatOut)
 		if !o.TimedOut {
 			if v := checkFormatD(ref, o); v != nil {
-				c.candidate16Format(i, "format-d", v, in, w, nil)
+				c.candidate16Format(i, "format-d", v, in, w, nil, argvFor)
 			}
 		}
 	}
@@ -258,11 +275,20 @@ func c16FormatOne(c *Ctx, pool *Pool, i int, tag string, seed uint64, in []byte)
 	if sh.cwd != "" {
 		disk = append(disk, DiskEntry{Path: sh.cwd, Kind: "dir"})
 	}
-	flag := "-f"
-	if r.Chance(1, 3) {
-		flag = "--file"
+	var fargv []string
+	switch r.Intn(6) {
+	case 0:
+		fargv = []string{"format", "--file", sh.rel}
+	case 1:
+		fargv = []string{"format", "--file=" + sh.rel}
+	case 2:
+		fargv = []string{"format", "-f=" + sh.rel}
+	case 3:
+		fargv = []string{"format", "-f", "no-such-file.dsl", "-f", sh.rel} // repeated: the last one counts
+	default:
+		fargv = []string{"format", "-f", sh.rel}
 	}
-	w := &CLIWorld{Argv: []string{"format", flag, sh.rel}, Cwd: sh.cwd, Disk0: disk, Sched: s0()}
+	w := &CLIWorld{Argv: fargv, Cwd: sh.cwd, Disk0: disk, Sched: s0()}
 	o, err := c.sc.RunCLI(w)
 	if err != nil {
 		return nil, err
@@ -273,7 +299,7 @@ func c16FormatOne(c *Ctx, pool *Pool, i int, tag string, seed uint64, in []byte)
 	c.event(fmt.Sprintf("c16fmt|%d%s|f", i, tag), w.Argv, sh.name, o.Exit, o.Stdout, treeSig(o, ""), opSig(o))
 	if !o.TimedOut {
 		if v := checkFormatF(ref, o, sh); v != nil {
-			c.candidate16Format(i, "format-f", v, in, w, &sh)
+			c.candidate16Format(i, "format-f", v, in, w, &sh, nil)
 		}
 	}
 	if ref.FormatOK {
@@ -357,7 +383,7 @@ func checkFormatF(ref *Resp, o *CLIOutcome, sh fileShape) *c16Viol {
 	return nil
 }
 
-func (c *Ctx) candidate16Format(caseIdx int, entry string, v *c16Viol, in []byte, w *CLIWorld, sh *fileShape) {
+func (c *Ctx) candidate16Format(caseIdx int, entry string, v *c16Viol, in []byte, w *CLIWorld, sh *fileShape, argvFor func([]byte) []string) {
 	c.mu.Lock()
 	c.candidates++
 	coarse := "C16|" + entry + "|" + v.class
@@ -373,13 +399,7 @@ func (c *Ctx) candidate16Format(caseIdx int, entry string, v *c16Viol, in []byte
 	build := func(x []byte) *CLIWorld {
 		nw := *w
 		if entry == "format-d" {
-			nw.Argv = append([]string{}, w.Argv...)
-			last := len(nw.Argv) - 1
-			if strings.HasPrefix(nw.Argv[last], "--dsl=") {
-				nw.Argv[last] = "--dsl=" + string(x)
-			} else {
-				nw.Argv[last] = string(x)
-			}
+			nw.Argv = argvFor(x)
 		} else {
 			nw.Disk0 = nil
 			for _, d := range w.Disk0 {
@@ -797,6 +817,9 @@ type compileCase struct {
 	spell   map[string]string // target -> how the directory is spelled on the command line (default: as in dirs)
 	stale   bool
 	nested  bool
+	eq       bool // --flag=value / -f=value forms
+	fileLast bool // the -f flag after the output flags
+	repeat   bool // the first output flag given twice
 }
 
 func (cc *compileCase) spelled(t string) string {
@@ -823,17 +846,34 @@ func (cc *compileCase) argv() []string {
 	if cc.abs {
 		pre = "{SB}/"
 	}
-	if cc.long {
-		argv = append(argv, "--file", "in.dsl")
-	} else {
-		argv = append(argv, "-f", "in.dsl")
-	}
-	for _, t := range cc.targets {
-		if cc.long {
-			argv = append(argv, TargetFlagLong[t], pre+cc.spelled(t))
-		} else {
-			argv = append(argv, TargetFlagShort[t], pre+cc.spelled(t))
+	flag := func(name, value string) []string {
+		if cc.eq {
+			return []string{name + "=" + value}
 		}
+		return []string{name, value}
+	}
+	var file []string
+	if cc.long {
+		file = flag("--file", "in.dsl")
+	} else {
+		file = flag("-f", "in.dsl")
+	}
+	if !cc.fileLast {
+		argv = append(argv, file...)
+	}
+	for k, t := range cc.targets {
+		name := TargetFlagShort[t]
+		if cc.long {
+			name = TargetFlagLong[t]
+		}
+		if cc.repeat && k == 0 {
+			// a repeated flag: the last value counts, the first directory must stay untouched
+			argv = append(argv, flag(name, pre+"overridden_"+t)...)
+		}
+		argv = append(argv, flag(name, pre+cc.spelled(t))...)
+	}
+	if cc.fileLast {
+		argv = append(argv, file...)
 	}
 	return argv
 }
@@ -907,7 +947,7 @@ func c16Compile(c *Ctx, pool *Pool, i int, thorough bool) error {
 			c.ev.Count("compile_invocations_skipped_generator_panics", 1)
 			continue
 		}
-		cc := &compileCase{targets: ts, long: r.Chance(1, 2), sub: r.Chance(1, 2), abs: r.Chance(1, 3), dirs: map[string]string{}, spell: map[string]string{}, stale: r.Chance(1, 2), nested: r.Chance(1, 3)}
+		cc := &compileCase{targets: ts, long: r.Chance(1, 2), sub: r.Chance(1, 2), abs: r.Chance(1, 3), dirs: map[string]string{}, spell: map[string]string{}, stale: r.Chance(1, 2), nested: r.Chance(1, 3), eq: r.Chance(1, 4), fileLast: r.Chance(1, 4), repeat: r.Chance(1, 8)}
 		// flat layout: some or all targets share one output directory (file
 		// names of different languages do not collide, the union must appear)
 		shared := len(ts) >= 2 && r.Chance(1, 4)
